@@ -15,6 +15,7 @@ import (
 	"sort"
 	"strings"
 
+	"github.com/dave/dst"
 	"github.com/dave/dst/decorator"
 )
 
@@ -323,6 +324,7 @@ func c03Judge(src []byte) (sig, what string) {
 	}
 	var out bytes.Buffer
 	var err error
+	shared := ""
 	if msg := guard(func() {
 		f, e := decorator.Parse(src)
 		if e != nil {
@@ -330,8 +332,21 @@ func c03Judge(src []byte) (sig, what string) {
 			return
 		}
 		err = decorator.Fprint(&out, f)
+		if err == nil {
+			// the same tree through a Restorer whose file set already holds another file must print the same
+			r := decorator.NewRestorer()
+			r.Fset = token.NewFileSet()
+			r.Fset.AddFile("other.go", -1, 57)
+			var b2 bytes.Buffer
+			if e2 := r.Fprint(&b2, dst.Clone(f).(*dst.File)); e2 != nil || !bytes.Equal(b2.Bytes(), out.Bytes()) {
+				shared = fmt.Sprintf("%v: %s", e2, diffAt(out.Bytes(), b2.Bytes()))
+			}
+		}
 	}); msg != "" {
 		return "decorate-print-panic", msg
+	}
+	if shared != "" {
+		return "print-depends-on-fileset", "a Restorer whose file set already holds a file prints differently: " + shared
 	}
 	if err != nil {
 		return "decorate-print-error", err.Error()
